@@ -103,6 +103,79 @@ func runC17(c *core.Ctx) {
 		cs.Distinct(valueDigest("compound-all", &cp))
 		c17Format(cs, &cp, "CompoundPacket(all types)")
 	})
+	// (2b) every list of every type at every length 0..70 and around the powers of two up to 1025:
+	// a formatter that sizes a buffer from the element count has its boundary somewhere here
+	listLens := []int{}
+	for n := 0; n <= 70; n++ {
+		listLens = append(listLens, n)
+	}
+	listLens = append(listLens, 127, 128, 129, 253, 254, 255, 256, 257, 511, 512, 513, 1023, 1024, 1025)
+	c.Exhaustive("list lengths 0..70, 127..129, 253..257, 511..513, 1023..1025 for each of 22 lists", uint64(22*len(listLens)))
+	c.Section("list-lengths", uint64(len(listLens)), func(cs *core.Case) {
+		r := cs.R
+		n := listLens[cs.Idx]
+		small := func() rtcp.Packet {
+			return gen.Packet(r, gen.Kind(r.Intn(int(gen.Compound))), gen.Opts{Small: true, NoBig: true})
+		}
+		var cp rtcp.CompoundPacket
+		for i := 0; i < n; i++ {
+			cp = append(cp, small())
+		}
+		sdesChunks := &rtcp.SourceDescription{}
+		for i := 0; i < n; i++ {
+			sdesChunks.Chunks = append(sdesChunks.Chunks, rtcp.SourceDescriptionChunk{Source: r.U32(), Items: []rtcp.SourceDescriptionItem{{Type: rtcp.SDESCNAME, Text: "c"}}})
+		}
+		sdesItems := &rtcp.SourceDescription{Chunks: []rtcp.SourceDescriptionChunk{{Source: r.U32()}}}
+		for i := 0; i < n; i++ {
+			sdesItems.Chunks[0].Items = append(sdesItems.Chunks[0].Items, rtcp.SourceDescriptionItem{Type: rtcp.SDESType(1 + i%8), Text: gen.Text(r)})
+		}
+		ccfbBlocks := &rtcp.CCFeedbackReport{}
+		for i := 0; i < n; i++ {
+			ccfbBlocks.ReportBlocks = append(ccfbBlocks.ReportBlocks, rtcp.CCFeedbackReportBlock{MediaSSRC: r.U32(), BeginSequence: r.U16(), MetricBlocks: make([]rtcp.CCFeedbackMetricBlock, r.Intn(3))})
+		}
+		ccfbMetrics := &rtcp.CCFeedbackReport{ReportBlocks: []rtcp.CCFeedbackReportBlock{{MediaSSRC: r.U32(), BeginSequence: uint16(r.Pick(0, 65535, 65536-n, int(r.U16()))), MetricBlocks: make([]rtcp.CCFeedbackMetricBlock, n)}}}
+		xrBlocks := &rtcp.ExtendedReport{}
+		for i := 0; i < n; i++ {
+			xrBlocks.Reports = append(xrBlocks.Reports, gen.XRBlock(r, gen.XRKind(i%int(gen.NumXRKinds)), true))
+		}
+		dlrr := &rtcp.DLRRReportBlock{Reports: make([]rtcp.DLRRReport, n)}
+		twcc := &rtcp.TransportLayerCC{Header: rtcp.Header{Count: 15, Type: 205}, PacketStatusCount: uint16(n)}
+		for i := 0; i < n; i++ {
+			if i%2 == 0 {
+				twcc.PacketChunks = append(twcc.PacketChunks, &rtcp.RunLengthChunk{PacketStatusSymbol: uint16(r.Intn(4)), RunLength: r.U16() & 0x1FFF})
+			} else {
+				twcc.PacketChunks = append(twcc.PacketChunks, &rtcp.StatusVectorChunk{Type: 1, SymbolSize: uint16(r.Intn(2)), SymbolList: make([]uint16, r.Pick(0, 7, 14, n))})
+			}
+			twcc.RecvDeltas = append(twcc.RecvDeltas, &rtcp.RecvDelta{Type: uint16(1 + r.Intn(2)), Delta: int64(r.Intn(1000)) * 250})
+		}
+		vals := []rtcp.Packet{
+			&cp,
+			&rtcp.SenderReport{Reports: make([]rtcp.ReceptionReport, n)},
+			&rtcp.SenderReport{ProfileExtensions: r.Bytes(n)},
+			&rtcp.ReceiverReport{Reports: make([]rtcp.ReceptionReport, n)},
+			&rtcp.ReceiverReport{ProfileExtensions: r.Bytes(n)},
+			sdesChunks, sdesItems,
+			&rtcp.Goodbye{Sources: make([]uint32, n)},
+			&rtcp.Goodbye{Sources: []uint32{1}, Reason: gen.TextN(r, n)},
+			&rtcp.ApplicationDefined{Name: "abcd", Data: r.Bytes(n)},
+			&rtcp.TransportLayerNack{Nacks: make([]rtcp.NackPair, n)},
+			&rtcp.SliceLossIndication{SLI: make([]rtcp.SLIEntry, n)},
+			&rtcp.FullIntraRequest{FIR: make([]rtcp.FIREntry, n)},
+			&rtcp.ReceiverEstimatedMaximumBitrate{Bitrate: 1e6, SSRCs: make([]uint32, n)},
+			ccfbBlocks, ccfbMetrics, xrBlocks,
+			&rtcp.ExtendedReport{Reports: []rtcp.ReportBlock{&rtcp.LossRLEReportBlock{Chunks: make([]rtcp.Chunk, n)}, &rtcp.DuplicateRLEReportBlock{Chunks: make([]rtcp.Chunk, n)}}},
+			&rtcp.ExtendedReport{Reports: []rtcp.ReportBlock{&rtcp.PacketReceiptTimesReportBlock{ReceiptTime: make([]uint32, n)}, dlrr}},
+			&rtcp.ExtendedReport{Reports: []rtcp.ReportBlock{&rtcp.UnknownReportBlock{XRHeader: rtcp.XRHeader{BlockType: 99}, Bytes: r.Bytes(n)}}},
+			twcc,
+		}
+		raw := rtcp.RawPacket(r.Bytes(n))
+		vals = append(vals, &raw)
+		for _, p := range vals {
+			cs.Distinct(valueDigest(mon.TypeName(p), p))
+			cs.Count("list-length/" + mon.TypeName(p))
+			c17Format(cs, p, mon.TypeName(p)+fmt.Sprintf(" (list of %d)", n))
+		}
+	})
 	// (3) empty and maximal lists, extreme field values
 	c.Once("extremes", func(cs *core.Case) {
 		max := func(k gen.Kind) rtcp.Packet {
